@@ -7,12 +7,8 @@ use std::fmt::Write as _;
 /// what the error-boundary part of the generator may still produce (see `eview`)
 #[derive(Clone)]
 struct Ev {
-    /// inside the children of a boundary
-    in_eb: bool,
     /// `Result` leaves still allowed below the current boundary
     budget: usize,
-    /// the full class (see `generate`)
-    full: bool,
 }
 
 struct G {
@@ -21,8 +17,6 @@ struct G {
     /// scope ids handed out in the current case; those of component-local signals
     next_sid: u32,
     sig_sids: Vec<u32>,
-    /// the implementation unregisters dropped errors and gives errors ids of their own (see `eview`)
-    eb_full: bool,
 }
 
 /// the component-local state visible at the place being generated (one effect level: see `xview`)
@@ -379,13 +373,9 @@ impl G {
     // ---------------------------------------------------------------- error boundaries
     //
     // `eb <view>` with `res <c> <x>` leaves (`Err` while `c != 0`) anywhere below it: directly, in branches of
-    // `Either` / `Show` that a later re-run creates, in rows that a later re-run adds, below a nested boundary.
-    // The FULL class needs two repairs of the real code (props/C04.known F-C04-3 / F-C04-4, hooks/fix-c04-3.patch,
-    // hooks/fix-c04-4.patch): an error must be unregistered when its `ResultState` is dropped by a task, and two
-    // errors of one boundary must not share an id.  `generate` probes the implementation it is linked with for
-    // both; while either is missing, the generated boundaries stay inside the class the unrepaired code gets
-    // right (`Ev::full == false`): one `res` leaf per boundary, not inside a row, histories `set; idle`, and no
-    // write that can drop the leaf while it is in error (`legacy_ok`).
+    // `Either` / `Show` that a later re-run creates or drops, in rows that a later re-run adds or removes (also while
+    // they are in error), several failing leaves per boundary, below a nested boundary; every polling order.
+    // (Two defects found in this class are repaired in /repo: ffdfcd9 F-C04-3, 6685c08 F-C04-4; props/C04.known.)
 
     fn res_cond(&mut self, in_row: bool) -> Expr {
         let sigs = sig_ids(&self.defs);
@@ -454,12 +444,12 @@ impl G {
             5 | 6 => ViewD::Seq(Box::new(self.eview(depth - 1, ev)), Box::new(self.eview(depth - 1, ev))),
             7 | 8 => ViewD::Either(self.cond_expr(), Box::new(self.eview(depth - 1, ev)), Box::new(self.eview(depth - 1, ev))),
             9 | 10 | 11 => ViewD::Show(self.cond_expr(), Box::new(self.eview(depth - 1, ev)), Box::new(self.eview(depth - 1, ev))),
-            12 | 13 if ev.full || !ev.in_eb => {
+            12 | 13 => {
                 // a (nested) boundary
-                let mut inner = Ev { in_eb: true, budget: if ev.full { 6 } else { 1 }, full: ev.full };
+                let mut inner = Ev { budget: 6 };
                 ViewD::Eb(Box::new(self.eview(depth - 1, &mut inner)))
             }
-            14 if ev.full => {
+            14 => {
                 let lists = self.xlists();
                 let sel = self.dyn_expr();
                 ViewD::Elem("ul", vec![], Box::new(ViewD::ForR(sel, lists, Box::new(self.erow(depth - 1, ev)))))
@@ -473,10 +463,10 @@ impl G {
     }
 
     /// a mounted view with an error boundary near its top
-    fn etop(&mut self, depth: usize, full: bool) -> ViewD {
-        let mut inner = Ev { in_eb: true, budget: if full { 6 } else { 1 }, full };
+    fn etop(&mut self, depth: usize) -> ViewD {
+        let mut inner = Ev { budget: 6 };
         let mut kid = self.eview(depth, &mut inner);
-        if inner.budget == (if full { 6 } else { 1 }) {
+        if inner.budget == 6 {
             // no `Result` leaf yet: put one behind a condition, where a later re-run creates it
             let leaf = self.res_leaf(false);
             let other = if self.r.chance(1, 2) { ViewD::Text(self.word()) } else { ViewD::Unit };
@@ -488,7 +478,7 @@ impl G {
             kid = ViewD::Seq(Box::new(kid), Box::new(guarded));
         }
         let eb = ViewD::Eb(Box::new(kid));
-        let mut outer = Ev { in_eb: false, budget: if full { 2 } else { 0 }, full };
+        let mut outer = Ev { budget: 2 };
         match self.r.below(6) {
             0 | 1 => eb,
             2 => ViewD::Elem(*self.r.pick(TAGS), self.attrs(), Box::new(eb)),
@@ -526,64 +516,10 @@ impl G {
 fn has_susp(v: &ViewD) -> bool {
     match v {
         ViewD::Susp(..) => true,
-        ViewD::Text(_) | ViewD::Unit | ViewD::DynText(_) | ViewD::For(..) | ViewD::Res(..) => false,
-        ViewD::Elem(_, _, k) | ViewD::Errb(_, k) | ViewD::ForR(_, _, k) | ViewD::ForE(_, _, k) | ViewD::Scope(_, _, k) | ViewD::Eb(k) => has_susp(k),
+        ViewD::Text(_) | ViewD::Unit | ViewD::DynText(_) | ViewD::For(..) | ViewD::Res(..) | ViewD::Aw(_) => false,
+        ViewD::Elem(_, _, k) | ViewD::Errb(_, k) | ViewD::ForR(_, _, k) | ViewD::ForE(_, _, k) | ViewD::Scope(_, _, k) | ViewD::Eb(k) | ViewD::Sus(k) | ViewD::Tra(k) => has_susp(k),
         ViewD::Seq(a, b) | ViewD::Either(_, a, b) | ViewD::Show(_, a, b) => has_susp(a) || has_susp(b),
     }
-}
-
-fn has_eb(v: &ViewD) -> bool {
-    match v {
-        ViewD::Eb(..) | ViewD::Res(..) => true,
-        ViewD::Text(_) | ViewD::Unit | ViewD::DynText(_) | ViewD::For(..) => false,
-        ViewD::Elem(_, _, k) | ViewD::Errb(_, k) | ViewD::Susp(_, k) | ViewD::ForR(_, _, k) | ViewD::ForE(_, _, k) | ViewD::Scope(_, _, k) => has_eb(k),
-        ViewD::Seq(a, b) | ViewD::Either(_, a, b) | ViewD::Show(_, a, b) => has_eb(a) || has_eb(b),
-    }
-}
-
-/// every `res` leaf below a boundary with the conditions (and the side it is on) between it and that boundary
-fn res_chains(v: &ViewD, chain: &mut Vec<(Expr, bool)>, in_eb: bool, out: &mut Vec<(Vec<(Expr, bool)>, Expr)>) {
-    match v {
-        ViewD::Text(_) | ViewD::Unit | ViewD::DynText(_) | ViewD::For(..) => {}
-        ViewD::Res(c, _) => {
-            if in_eb {
-                out.push((chain.clone(), c.clone()))
-            }
-        }
-        ViewD::Eb(k) => res_chains(k, &mut vec![], true, out),
-        ViewD::Elem(_, _, k) | ViewD::Errb(_, k) | ViewD::Susp(_, k) | ViewD::ForR(_, _, k) | ViewD::ForE(_, _, k) | ViewD::Scope(_, _, k) => {
-            res_chains(k, chain, in_eb, out)
-        }
-        ViewD::Seq(a, b) => {
-            res_chains(a, chain, in_eb, out);
-            res_chains(b, chain, in_eb, out)
-        }
-        ViewD::Either(c, a, b) | ViewD::Show(c, a, b) => {
-            chain.push((c.clone(), true));
-            res_chains(a, chain, in_eb, out);
-            chain.pop();
-            chain.push((c.clone(), false));
-            res_chains(b, chain, in_eb, out);
-            chain.pop();
-        }
-    }
-}
-
-/// the unrepaired code never unregisters the error of a `Result` state that is dropped while it is `Err`: a write
-/// to `sig` (values `env` before, `env2` after it) is inside the class it gets right if no leaf can exist and be in
-/// error at the moment an effect above it re-runs.  The outermost condition above the leaf that reads `sig`
-/// re-runs and drops what is below it; at that moment the conditions between it and the leaf may or may not have
-/// re-run already, and so may the leaf.
-fn legacy_ok(defs: &[Def], env: &[i64], env2: &[i64], view: &ViewD, sig: usize) -> bool {
-    let mut leaves = vec![];
-    res_chains(view, &mut vec![], false, &mut leaves);
-    let on = |e: &Expr, env: &[i64], side: bool| (eval_pure(defs, env, e) != 0) == side;
-    leaves.iter().all(|(chain, c)| {
-        let Some(j) = chain.iter().position(|(e, _)| reads_of(defs, e).contains(&sig)) else { return true };
-        let may_exist = chain[..=j].iter().all(|(e, side)| on(e, env, *side))
-            && chain[j + 1..].iter().all(|(e, side)| on(e, env, *side) || on(e, env2, *side));
-        !(may_exist && (eval_pure(defs, env, c) != 0 || eval_pure(defs, env2, c) != 0))
-    })
 }
 
 /// a `<For>` sits in the region of the mounted view itself
@@ -634,7 +570,7 @@ fn random_case(g: &mut G, name: &str, out: &mut String) {
     let view = if xcase {
         g.xtop(depth)
     } else if ecase {
-        g.etop(depth, g.eb_full)
+        g.etop(depth)
     } else {
         g.top_view(depth)
     };
@@ -644,9 +580,7 @@ fn random_case(g: &mut G, name: &str, out: &mut String) {
     // Suspense: the executor always runs to idle between writes (partial progress of an async derived and
     // of the Suspend future that awaits it is C10's subject: F-C10-1; a disposal while a Suspend future is
     // pending panics in the leftover task, see props/C04.known)
-    let legacy = ecase && !g.eb_full;
-    let only_idle = has_susp(&view) || legacy;
-    let mut env: Vec<i64> = g.defs.iter().map(|d| if let Def::Sig(v) = d { *v } else { 0 }).collect();
+    let only_idle = has_susp(&view);
     match g.r.below(3) {
         0 => writeln!(out, "idle").unwrap(),
         1 if !only_idle => writeln!(out, "poll {}", g.r.below(4)).unwrap(),
@@ -655,7 +589,7 @@ fn random_case(g: &mut G, name: &str, out: &mut String) {
     }
     let writes = g.r.range(3, 15);
     let dispose_at =
-        if g.r.chance(1, 6) && !(xcase && root_has_for(&view)) && !legacy { Some(g.r.below(writes)) } else { None };
+        if g.r.chance(1, 6) && !(xcase && root_has_for(&view)) { Some(g.r.below(writes)) } else { None };
     for w in 0..writes {
         if dispose_at == Some(w) {
             writeln!(out, "dispose").unwrap();
@@ -674,14 +608,7 @@ fn random_case(g: &mut G, name: &str, out: &mut String) {
             continue;
         }
         let s = *g.r.pick(&sigs);
-        let v = g.r.below(5) as i64 - 1;
-        let mut env2 = env.clone();
-        env2[s] = v;
-        if legacy && !legacy_ok(&g.defs, &env, &env2, &view, s) {
-            continue;
-        }
-        env = env2;
-        writeln!(out, "set {s} {v}").unwrap();
+        writeln!(out, "set {s} {}", g.r.below(5) as i64 - 1).unwrap();
         if only_idle {
             writeln!(out, "idle").unwrap();
             continue;
@@ -730,7 +657,7 @@ fn small_programs() -> Vec<(Vec<Def>, String)> {
     ]
 }
 
-/// error boundaries under every schedule (full class only: the schedules drop leaves that are in error)
+/// error boundaries under every schedule (the schedules drop leaves that are in error)
 fn eb_programs() -> Vec<(Vec<Def>, String)> {
     let t = |s: &str| format!("t {}", hexs(s));
     vec![
@@ -743,7 +670,7 @@ fn eb_programs() -> Vec<(Vec<Def>, String)> {
     ]
 }
 
-fn exhaustive_cases(out: &mut String, eb_full: bool) -> usize {
+fn exhaustive_cases(out: &mut String) -> usize {
     let mut count = 0;
     let mut scheds: Vec<Vec<usize>> = vec![vec![]];
     let mut frontier: Vec<Vec<usize>> = vec![vec![]];
@@ -760,9 +687,7 @@ fn exhaustive_cases(out: &mut String, eb_full: bool) -> usize {
         frontier = next;
     }
     let mut progs = small_programs();
-    if eb_full {
-        progs.extend(eb_programs());
-    }
+    progs.extend(eb_programs());
     for (pi, (defs, view)) in progs.iter().enumerate() {
         for (si, sched) in scheds.iter().enumerate() {
             writeln!(out, "case x{pi}-{si}").unwrap();
@@ -792,28 +717,10 @@ fn exhaustive_cases(out: &mut String, eb_full: bool) -> usize {
     count
 }
 
-/// the probes `generate`'s caller runs on the real code to choose the class of the generated boundaries:
-/// each must end without a failing verdict for the full class
-pub const EB_PROBES: &str = "case probe-drop-in-error
-sig 1
-sig 1
-mount el div 0 eb seq t 61 sh R0 res R1 L7 t 62
-idle
-set 0 0
-idle
-case probe-two-errors
-sig 1
-sig 1
-mount el div 0 eb seq res R0 L1 res R1 L2
-idle
-set 0 0
-idle
-";
-
-pub fn generate(seed: u64, n: usize, _tier: &str, eb_full: bool) -> String {
+pub fn generate(seed: u64, n: usize, _tier: &str) -> String {
     let mut out = String::new();
-    let nx = exhaustive_cases(&mut out, eb_full);
-    let mut g = G { r: Rng::new(seed), defs: vec![], next_sid: 0, sig_sids: vec![], eb_full };
+    let nx = exhaustive_cases(&mut out);
+    let mut g = G { r: Rng::new(seed), defs: vec![], next_sid: 0, sig_sids: vec![] };
     for i in 0..n.saturating_sub(nx).max(1) {
         random_case(&mut g, &format!("g{i}"), &mut out);
     }
@@ -948,6 +855,17 @@ fn view_tags(defs: &[Def], v: &ViewD, under_dyn: bool, tags: &mut BTreeSet<&'sta
             on_expr(c, tags);
             on_expr(e, tags)
         }
+        ViewD::Sus(k) => {
+            tags.insert("suspense");
+            view_tags(defs, k, true, tags)
+        }
+        ViewD::Tra(k) => {
+            tags.insert("transition");
+            view_tags(defs, k, true, tags)
+        }
+        ViewD::Aw(_) => {
+            tags.insert("await");
+        }
         ViewD::Susp(e, a) => {
             tags.insert("suspense");
             on_expr(e, tags);
@@ -971,7 +889,7 @@ pub fn tags_of_file(text: &str) -> HashMap<String, String> {
     let flush = |name: &Option<String>, tags: &BTreeSet<&'static str>, out: &mut HashMap<String, String>| {
         if let Some(n) = name {
             let mut t: Vec<&str> = tags.iter().copied().collect();
-            if !t.iter().any(|x| ["dyntext", "dynattr", "dynclass", "dynstyle", "either", "show", "for", "suspense", "errorboundary"].contains(x)) {
+            if !t.iter().any(|x| ["dyntext", "dynattr", "dynclass", "dynstyle", "either", "show", "for", "suspense", "transition", "errorboundary"].contains(x)) {
                 t = vec!["plain"];
             }
             out.insert(n.clone(), t.join(","));
